@@ -154,7 +154,7 @@ func (h transactionsResourceHandler) ResolveFilter(_ common.ResourceQuery[any], 
 	case property == "metadata":
 		return "metadata -> ? is not null", []any{value}, nil
 	default:
-		return "", nil, fmt.Errorf("unsupported filter: %s", property)
+		return "", nil, common.NewErrInvalidQuery("unsupported filter: %s", property)
 	}
 }
 
